@@ -85,8 +85,30 @@ def updates(conn, modname):
     return res
 
 
+_nodes = []
+
+
+def cleanup_nodes():
+    """forget the loggers and wrapper classes of finished cases (logging.Logger.setLevel walks over all loggers
+    ever created, frappy keeps every wrapper class: both make a long run quadratic)"""
+    import logging
+    import frappy.modulebase
+    d = logging.Logger.manager.loggerDict
+    for node in _nodes:
+        prefix = node.root.name + '.'
+        for name in [n for n in d if n.startswith(prefix) or n == node.root.name]:
+            del d[name]
+        for mod in node.modules.values():
+            for cls in type(mod).__mro__:
+                frappy.modulebase.wrapperClasses.pop(cls, None)
+    _nodes.clear()
+
+
 def new_node(cfg):
+    if len(_nodes) >= 50:
+        cleanup_nodes()
     node = Node(cfg, omit_unchanged_within=0)
+    _nodes.append(node)
     if node.errors:
         raise RuntimeError(f'node errors: {node.errors}')
     conn = node.connect()
@@ -987,6 +1009,14 @@ def run(ctx):
         for _ in range(per):
             cases.append(GENS[kind](rng, big))
 
+    shrunk = {}
+    chunk = 400
+    for start in range(0, len(cases), chunk):
+        _run_chunk(ctx, res, cases[start:start + chunk], start, ncorpus, shrunk)
+    return res
+
+
+def _run_chunk(ctx, res, cases, offset, ncorpus, shrunk):
     reqs, prepared = [], []
     for case in cases:
         trace, model, judge, canon = prepare(case)
@@ -994,9 +1024,9 @@ def run(ctx):
         reqs.append(model)
         reqs.append(judge)
     answers = ctx.driver.batch(reqs)
-    shrunk = {}
-    for j, (case, trace, canon) in enumerate(prepared):
-        model, judge = answers[2 * j], answers[2 * j + 1]
+    for j0, (case, trace, canon) in enumerate(prepared):
+        j = offset + j0
+        model, judge = answers[2 * j0], answers[2 * j0 + 1]
         if 'driver_error' in model or 'driver_error' in judge:
             raise RuntimeError(f'driver error: {model.get("driver_error")} {judge.get("driver_error")} case={json.dumps(case)[:500]}')
         kind = case['kind']
@@ -1044,7 +1074,6 @@ def run(ctx):
             else:
                 res.violations.append({'sig': sig, 'what': f'{kind}: see first occurrence', 'case': case,
                                        'detail': {'first_bad_index': bad}})
-    return res
 
 
 def replay(ctx, rp):
